@@ -37,7 +37,7 @@ Out ==
          status   |-> Result.status,
          words    |-> Result.words,
          faithful |-> Result.status = "ok" /\ Result.words = av,
-         asbuilt  |-> RenderSpacesOnly(av),
+         asbuilt  |-> RenderAsBuilt(av),
          cls      |-> ClassOfArgs(av) ]
 Emit == Done => PrintT(ToJson(Out))
 
@@ -63,7 +63,11 @@ Theorems ==
              /\ SelectSeq(inp, LAMBDA c : ~Blank(c)) = SelectSeq(JoinSp(Result.words), LAMBDA c : ~Blank(c))
           \* (validate) the executed argv always has a faithful rendering: the reference one
        /\ (Mode = "validate") => Faithful(RenderQuoted(Recs[rec].av), Recs[rec].av)
-          \* arguments the spaces-only rendering protects one by one are protected together
+          \* arguments the as-built rendering protects one by one are protected together
        /\ (Mode = "validate" /\ ClassOfArgs(Recs[rec].av) = "none") =>
-             Faithful(RenderSpacesOnly(Recs[rec].av), Recs[rec].av)
+             Faithful(RenderAsBuilt(Recs[rec].av), Recs[rec].av)
+          \* the shlex.quote form of a word is a faithful rendering of it; the as-built rendering only
+          \* fails on words it leaves bare (shell metacharacters)
+       /\ (Mode = "strings") => Faithful(<< SQ >> \o EscShlex(inp) \o << SQ >>, << inp >>)
+       /\ (Mode = "strings" /\ NeedsQuoteAsBuilt(inp)) => Faithful(OneAsBuilt(inp), << inp >>)
 =============================================================================
